@@ -75,8 +75,10 @@ Definition rows_in (l : list (path * file)) (p : path) : list row :=
   match lookup p l with Some f => f_rows f | None => [] end.
 Definition meta_in (l : list (path * file)) (p : path) : bool :=
   match lookup p l with Some f => f_meta f | None => false end.
+(* an input a job can use: it exists (downloadFiles skips vanished files) and passes
+   validateParquetFile (compactFiles skips corrupt / truncated files and leaves them alone) *)
 Definition has_file (l : list (path * file)) (p : path) : bool :=
-  match lookup p l with Some _ => true | None => false end.
+  match lookup p l with Some f => f_ok f | None => false end.
 
 (* every path a manifest mentions: its output and its inputs (GetFilesInManifests) *)
 Definition tracked_of (ms : list (path * manifest)) : list path :=
@@ -346,13 +348,16 @@ Definition case_oracle (c : ccase) : bool :=
   | [] => true
   | last :: _ =>
     relb (existsb cf_meta (c_files c)) (cvis (c_files c)) (cvis (cc_files last)) &&
-    forallb cf_ok (cc_files last) && (cc_mans last =? 0)
+    (length (filter (fun f => negb (cf_ok f)) (cc_files last)) <=? length (filter (fun f => negb (cf_ok f)) (c_files c))) &&
+    (cc_mans last =? 0)
   end.
 
 (* the same oracle on the MODEL's final state *)
 Definition case_model_oracle (c : ccase) : bool :=
   let s := fold_left (fun s cy => model_cycle c cy s) (c_cycles c) (case_init c) in
-  relb (existsb cf_meta (c_files c)) (cvis (c_files c)) (visible s) && all_ok (files s) && (length (mans s) =? 0).
+  relb (existsb cf_meta (c_files c)) (cvis (c_files c)) (visible s) &&
+  (length (filter (fun kv => negb (f_ok (snd kv))) (files s)) <=? length (filter (fun f => negb (cf_ok f)) (c_files c))) &&
+  (length (mans s) =? 0).
 
 (* ---- unit correspondences: SplitCandidateIntoBatches and filterCandidateFiles ---- *)
 Definition split_case_agrees (pr : params) (c : nat * nat * list (list N)) : bool :=
